@@ -1,9 +1,19 @@
 import TantivyModel.Proofs.Columnar.Mapping
 import TantivyModel.Proofs.Columnar.LinearColumn
+import TantivyModel.Proofs.Columnar.RangeU32
+import TantivyModel.Proofs.Columnar.RangeLookupMain
 import TantivyModel.Proofs.Columnar.CompactGaps
+import TantivyModel.Proofs.Columnar.CompactRange
+import TantivyModel.Proofs.Columnar.CompactColumnMain
 import TantivyModel.Proofs.Columnar.StackMissing
 import TantivyModel.Proofs.Columnar.Writer
 import TantivyModel.Proofs.Columnar.OptRankSelect
+import TantivyModel.Proofs.Columnar.DictColumn
+import TantivyModel.Proofs.Columnar.DictStack
+import TantivyModel.Proofs.Columnar.DictKept
+import TantivyModel.Proofs.Columnar.ColumnFile
+import TantivyModel.Proofs.Columnar.FileEndToEnd
+import TantivyModel.Proofs.Columnar.StackFile
 /-!
 # C08 — Fast fields return exactly the values that were indexed
 
@@ -39,6 +49,34 @@ theorem C08_bitpacker_roundtrip_followed (w : Nat) (hw : unpackerWidthOk w = tru
     (hfull : 8 ∣ w * vals.length) (i : Nat) (hi : i < vals.length) :
     unpackGet w i (pack w vals ++ rest) = vals[i] :=
   unpackGet_append w hw vals h rest hrest hfull i hi
+
+/-- `BitUnpacker::get_ids_for_value_range`, u32 fast path: the guard on the range start and the
+conversion of the u64 query range to u32 are the *source expressions* (translated by rs2lean into
+`Gen.range_lookup_*` on every run). Clamp-then-narrow is exact: for every stored value `x < 2^32`,
+either the start is beyond `u32::MAX` and nothing can match, or `lo ≤ x ≤ hi` holds exactly when
+`x` lies in the converted u32 range. (Narrowing before clamping is not: see the example.) -/
+theorem C08_range_u32_conversion_exact (lo hi x : Nat) (hlo : lo < 2 ^ 64) (hhi : hi < 2 ^ 64) (hx : x < 2 ^ 32) :
+    (Gen.range_lookup_start_too_big (BitVec.ofNat 64 lo) (BitVec.ofNat 64 hi) = true → ¬ lo ≤ x) ∧
+    (Gen.range_lookup_start_too_big (BitVec.ofNat 64 lo) (BitVec.ofNat 64 hi) = false →
+      ((lo ≤ x ∧ x ≤ hi) ↔
+        ((Gen.range_lookup_start_u32 (BitVec.ofNat 64 lo) (BitVec.ofNat 64 hi)).toNat ≤ x ∧
+          x ≤ (Gen.range_lookup_end_u32 (BitVec.ofNat 64 lo) (BitVec.ofNat 64 hi)).toNat))) :=
+  range_u32_exact lo hi x hlo hhi hx
+
+/-- the whole `get_ids_for_value_range` (slow u64 path for widths above 32, converted u32 path
+otherwise) on a packed stream, possibly followed by other bytes: exactly the positions of `s..e`
+whose value lies in `lo..=hi`, for every accepted width, every value list and every query range -/
+theorem C08_bitunpacker_range_lookup (w : Nat) (hw : unpackerWidthOk w = true) (vals : List Nat)
+    (h : ∀ v ∈ vals, v < 2 ^ w) (rest : Bytes) (hrest : ∀ b ∈ rest, b < 256)
+    (lo hi s e : Nat) (hlo : lo < 2 ^ 64) (hhi : hi < 2 ^ 64) (he : e ≤ vals.length) :
+    unpackRangeIds w (pack w vals ++ rest) lo hi s e
+      = (List.range' s (e - s)).filter (fun i => decide (lo ≤ vals.getD i 0) && decide (vals.getD i 0 ≤ hi)) :=
+  unpackRangeIds_spec w hw vals h rest hrest lo hi s e hlo hhi he
+
+example : unpackRangeIds 3 (pack 3 [1, 2, 3, 4, 5, 0]) 2 4 1 6 = [1, 2, 3] := by decide
+-- a range end above u32::MAX is clamped to u32::MAX (truncating it first would give 5)
+example : (Gen.range_lookup_end_u32 0#64 (BitVec.ofNat 64 (2 ^ 32 + 5))).toNat = 4294967295
+    ∧ unpackRangeIds 4 (pack 4 [9, 3]) 0 (2 ^ 32 + 5) 0 2 = [0, 1] := by decide
 
 /-- `compute_num_bits` always yields a width the unpacker accepts and that holds the amplitude -/
 theorem C08_num_bits_sufficient (n : Nat) (hn : n < 2 ^ 64) :
@@ -196,6 +234,53 @@ theorem C08_compact_space_order_preserving (vals : List Nat) (hs : vals.Pairwise
   obtain ⟨c, h1, h2, h3, h4⟩ := toCompactFrom_spec _ hv 1 v (hc v hvm)
   exact ⟨c, h1, h2, by omega, h4⟩
 
+/-- a whole compact-space (IP) column through its real byte layout — header (VInt num_vals, codec 1),
+bit-packed compact values, footer (u64 flags, VIntU128 min / max / num_vals, u8 num_bits, VInt
+number of ranges, delta-coded VIntU128 range bounds), footer length as u32 LE — for whatever blanks
+the cost heuristic removed: `open_u128_mapped (serialize vals)` succeeds, recovers the compact
+space, and every row reads back exactly. (At most 10^8 ranges so that the footer length fits the
+trailing u32; the amplitude must fit u64 — the real code asserts `≤ 32` bits.) -/
+theorem C08_compact_column_roundtrip (vals : List Nat) (hs : vals.Pairwise (· < ·)) (hmax : ∀ v ∈ vals, v ≤ U128MAX)
+    (sel : List (Nat × Nat)) (hsub : sel.Sublist (allGaps vals)) (hne : sel ≠ [])
+    (hnr : (coveredOf sel).length ≤ 100000000) (hamp : amplitude (coveredOf sel) < 2 ^ 64)
+    (col : List Nat) (hcol : ∀ v ∈ col, v ∈ vals) (hlen : col.length < 2 ^ 32) :
+    ∃ c, openU128Column (ipColumnEnc (coveredOf sel) col) = some c ∧ c.numVals = col.length
+      ∧ c.ranges = coveredOf sel ∧ ∀ i (hi : i < col.length), c.get i = col[i] := by
+  obtain ⟨hv, hc⟩ := C08_compact_space_covers vals hs hmax sel hsub hne
+  have hrmax : ∀ r ∈ coveredOf sel, r.2 ≤ U128MAX := by
+    obtain ⟨_, hvalid⟩ := allGaps_spec vals hs hmax
+    have hvb := validBlanks_sublist hsub hvalid
+    have hcov : coveredOf sel = coveredFrom 0 sel := by
+      unfold coveredOf
+      cases sel with
+      | nil => exact absurd rfl hne
+      | cons b bs => rfl
+    rw [hcov]
+    exact coveredFrom_le_max 0 sel hvb
+  exact compact_column_roundtrip _ hv hrmax hnr hamp col (fun v hvm => hc v (hcol v hvm)) hlen
+
+example : (openU128Column (ipColumnEnc [(5, 100), (2 ^ 128 - 1, 2 ^ 128 - 1)] [100, 5, 2 ^ 128 - 1])).map
+    (fun c => (List.range 3).map c.get) = some [100, 5, 2 ^ 128 - 1] := by decide
+
+/-- range lookup on a compact-space column (`CompactSpaceDecompressor::get_row_ids_for_value_range`):
+the u128 query range is converted to a compact range — an end that is covered maps to its compact
+value, a start in a gap moves up to the next range's `compact_start`, an end in a gap moves down
+to the previous range's `compact_end`, both ends in the same gap (or an empty range) match nothing
+— and the positions whose compact value lies in it are exactly the positions of `s..e` whose
+original value lies in `lo..=hi`. -/
+theorem C08_compact_space_range_lookup (vals : List Nat) (hs : vals.Pairwise (· < ·)) (hmax : ∀ v ∈ vals, v ≤ U128MAX)
+    (sel : List (Nat × Nat)) (hsub : sel.Sublist (allGaps vals)) (hne : sel ≠ [])
+    (col : List Nat) (hcol : ∀ v ∈ col, v ∈ vals) (lo hi s e : Nat) :
+    compactRangeRows (coveredOf sel) (col.map (fun v => (toCompact (coveredOf sel) v).getD 0)) lo hi s e
+      = (List.range' s (min e col.length - s)).filter (fun i => decide (lo ≤ col.getD i 0) && decide (col.getD i 0 ≤ hi)) := by
+  obtain ⟨hv, hc⟩ := C08_compact_space_covers vals hs hmax sel hsub hne
+  exact compactRangeRows_spec _ hv col (fun v hvm => hc v (hcol v hvm)) lo hi s e
+
+example : compactRange [(5, 100), (200, 300)] 101 199 = none
+    ∧ compactRange [(5, 100), (200, 300)] 50 250 = some (46, 147)
+    ∧ compactRange [(5, 100), (200, 300)] 150 1000 = some (97, 197)
+    ∧ compactRangeRows [(5, 100), (200, 300)] [46, 97, 1, 147] 60 200 0 4 = [1] := by decide
+
 example : allGaps [5, 6, 100, 2 ^ 128 - 1] = [(0, 4), (7, 99), (101, 2 ^ 128 - 2)] := by decide
 example : coveredOf [(0, 4), (101, 2 ^ 128 - 2)] = [(5, 100), (2 ^ 128 - 1, 2 ^ 128 - 1)]
     ∧ toCompact [(5, 100), (2 ^ 128 - 1, 2 ^ 128 - 1)] 100 = some 96
@@ -286,6 +371,106 @@ theorem C08_column_index_roundtrip {V : Type} (rows : Column V) (card : Card) (h
     read (encodeAs card rows).1 (encodeAs card rows).2 = rows :=
   read_encodeAs card rows hfit
 
+/-- the whole u64 column file on its bytes (`serialize_column_mappable_to_u64` / `open_column_u64`:
+cardinality code, optional index, multivalued start-offsets column and its u32 length, column
+values under any codec, trailing u32 index length): for every well-formed column index (what the
+writer and every merge hand over: rows-with-values strictly increasing below the row count, start
+offsets below 2^64) the file opens, and reading every document through the opened readers
+(`rank_if_exists` on the optional index bytes, start offsets decoded from their column, values
+decoded from theirs) equals reading through the abstract index. The index bytes must stay below
+4 GiB (the code stores their length as u32). -/
+theorem C08_column_file_open (startsCodec valCodec : Nat) (idx : Index) (vals : List Nat) (bytes : Bytes)
+    (hok : IndexOk idx) (hv : ∀ v ∈ vals, v < 2 ^ 64) (hlen : vals.length < 2 ^ 32)
+    (hibl : ∀ ib, indexEnc startsCodec idx = some ib → ib.length < 2 ^ 32)
+    (henc : columnFileEnc startsCodec valCodec idx vals = some bytes) :
+    ∃ f, openColumnFile bytes = some f ∧ f.read = read idx vals :=
+  columnFile_read startsCodec valCodec idx vals bytes hok hv hlen hibl henc
+
+/-- rows → column file → rows: for every cardinality that fits, any codecs, the file written for
+`rows` opens and every document reads back exactly its values in insertion order. -/
+theorem C08_column_file_roundtrip (startsCodec valCodec : Nat) (card : Card) (rows : Column Nat)
+    (hfit : card.fits rows) (hv : ∀ r ∈ rows, ∀ v ∈ r, v < 2 ^ 64) (hn : rows.length ≤ 65535 * 65536)
+    (hvals : rows.flatten.length < 2 ^ 32) (bytes : Bytes)
+    (hibl : ∀ ib, indexEnc startsCodec (encodeAs card rows).1 = some ib → ib.length < 2 ^ 32)
+    (henc : columnFileEnc startsCodec valCodec (encodeAs card rows).1 (encodeAs card rows).2 = some bytes) :
+    ∃ f, openColumnFile bytes = some f ∧ f.read = rows :=
+  columnFile_roundtrip startsCodec valCodec card rows hfit hv hn hvals bytes hibl henc
+
+/-- operation log → bytes → rows: the column file serialized from what the writer pipeline produces
+(`writerEncode`: ColumnWriter::record, cardinality detection, index builders) opens, and every
+document reads back exactly the values recorded for it, in insertion order. -/
+theorem C08_writer_file_roundtrip (startsCodec valCodec : Nat) (rows : Column Nat)
+    (hv : ∀ r ∈ rows, ∀ v ∈ r, v < 2 ^ 64) (hn : rows.length ≤ 65535 * 65536)
+    (hvals : rows.flatten.length < 2 ^ 32) (bytes : Bytes)
+    (hibl : ∀ ib, indexEnc startsCodec (writerEncode rows).1 = some ib → ib.length < 2 ^ 32)
+    (henc : columnFileEnc startsCodec valCodec (writerEncode rows).1 (writerEncode rows).2 = some bytes) :
+    ∃ f, openColumnFile bytes = some f ∧ f.read = rows :=
+  writer_file_roundtrip startsCodec valCodec rows hv hn hvals bytes hibl henc
+
+/-- shuffled merge → bytes → rows: the column file serialized from the merged (index, values) opens
+and reads back as `mergeSpec` of what a reader sees of the inputs. -/
+theorem C08_merge_file_roundtrip (startsCodec valCodec : Nat) (card : Card) (order : List (Nat × Nat))
+    (ins : List (MergeInput Nat))
+    (hvalid : ∀ a ∈ order, validAddr ins a)
+    (hfit : card.fits (order.map (inputRow ins)))
+    (hv : ∀ a ∈ order, ∀ v ∈ inputRow ins a, v < 2 ^ 64) (hn : order.length ≤ 65535 * 65536)
+    (hvals : (order.map (inputRow ins)).flatten.length < 2 ^ 32) (bytes : Bytes)
+    (hibl : ∀ ib, indexEnc startsCodec (mergeShuffledAs card order ins).1 = some ib → ib.length < 2 ^ 32)
+    (henc : columnFileEnc startsCodec valCodec (mergeShuffledAs card order ins).1
+      (mergeShuffledAs card order ins).2 = some bytes) :
+    ∃ f, openColumnFile bytes = some f ∧ f.read = mergeSpec order (ins.map MergeInput.read) :=
+  merge_file_roundtrip startsCodec valCodec card order ins hvalid hfit hv hn hvals bytes hibl henc
+
+/-- stacked merge → bytes → rows: inputs canonical or missing; the column file serialized from the
+stacked (index, values) opens and reads back as the concatenation of what a reader sees of each
+input (a stacked merge writes `encodeAs` of the concatenated rows: `mergeStacked_eq_encodeAs`). -/
+theorem C08_merge_stack_file_roundtrip (startsCodec valCodec : Nat) (ins : List (MergeInput Nat))
+    (h : ∀ m ∈ ins, CanonOrMissing m)
+    (hv : ∀ v ∈ (mergeStacked ins).2, v < 2 ^ 64)
+    (hn : (stackSpec (ins.map MergeInput.read)).length ≤ 65535 * 65536)
+    (hvals : (stackSpec (ins.map MergeInput.read)).flatten.length < 2 ^ 32) (bytes : Bytes)
+    (hibl : ∀ ib, indexEnc startsCodec (mergeStacked ins).1 = some ib → ib.length < 2 ^ 32)
+    (henc : columnFileEnc startsCodec valCodec (mergeStacked ins).1 (mergeStacked ins).2 = some bytes) :
+    ∃ f, openColumnFile bytes = some f ∧ f.read = stackSpec (ins.map MergeInput.read) :=
+  stack_file_roundtrip startsCodec valCodec ins h hv hn hvals bytes hibl henc
+
+example : ((columnFileEnc 0 0
+      (mergeStacked [⟨1, some (encodeAs .full [[1]])⟩, ⟨2, none⟩, (⟨1, some (encodeAs .full [[5]])⟩ : MergeInput Nat)]).1
+      (mergeStacked [⟨1, some (encodeAs .full [[1]])⟩, ⟨2, none⟩, (⟨1, some (encodeAs .full [[5]])⟩ : MergeInput Nat)]).2).bind
+      openColumnFile).map ColFile.read = some [[1], [], [], [5]] := by decide
+
+/-- Str / Bytes column file (`open_column_bytes`): `[dictionary][term ordinal column file][dictionary
+length u32 LE]` splits back into the dictionary bytes and the ordinal column, which opens as above
+(the dictionary itself is an sstable: C15). -/
+theorem C08_bytes_column_file (dict colFile : Bytes) (hd : dict.length < 2 ^ 32) (f : ColFile)
+    (hf : openColumnFile colFile = some f) :
+    openBytesColumnFile (bytesColumnFileEnc dict colFile) = some (dict, f) :=
+  bytesColumnFile_open dict colFile hd f hf
+
+example : ((columnFileEnc 0 0 (writerEncode [[4], [], [4, 1]]).1 (writerEncode [[4], [], [4, 1]]).2).bind
+      (fun c => openBytesColumnFile (bytesColumnFileEnc [9, 9, 9] c))).map (fun p => (p.1, p.2.read))
+    = some ([9, 9, 9], [[4], [], [4, 1]]) := by decide
+
+/-- the same for u128 (IP address) column files (`open_column_u128`): column index bytes + the
+compact-space column + index length, for any valid compact space covering the values. -/
+theorem C08_column_file_u128 (startsCodec : Nat) (rs : Ranges) (idx : Index) (vals : List Nat) (bytes : Bytes)
+    (hok : IndexOk idx) (hv : ValidRanges rs) (hmax : ∀ r ∈ rs, r.2 ≤ U128MAX)
+    (hnr : rs.length ≤ 100000000) (hamp : amplitude rs < 2 ^ 64)
+    (hcov : ∀ v ∈ vals, Covered rs v) (hlen : vals.length < 2 ^ 32)
+    (hibl : ∀ ib, indexEnc startsCodec idx = some ib → ib.length < 2 ^ 32)
+    (henc : columnFileEnc128 startsCodec rs idx vals = some bytes) :
+    ∃ f, openColumnFile128 bytes = some f ∧ f.read = read idx vals :=
+  columnFile128_read startsCodec rs idx vals bytes hok hv hmax hnr hamp hcov hlen hibl henc
+
+example : ((columnFileEnc128 0 [(5, 100), (2 ^ 100, 2 ^ 100 + 3)] (encodeAs .optional [[], [2 ^ 100 + 1], [7]]).1
+      [2 ^ 100 + 1, 7]).bind openColumnFile128).map ColFile.read = some [[], [2 ^ 100 + 1], [7]] := by decide
+
+example : ((columnFileEnc 0 2 (encodeAs .multivalued [[5], [], [7, 9]]).1
+      (encodeAs .multivalued [[5], [], [7, 9]]).2).bind openColumnFile).map ColFile.read
+    = some [[5], [], [7, 9]] := by decide
+example : ((columnFileEnc 0 0 (encodeAs .optional [[], [3]]).1 (encodeAs .optional [[], [3]]).2).bind
+      openColumnFile).map ColFile.read = some [[], [3]] := by decide
+
 /-- numeric coercion (`CompatibleNumericalTypes` + `Coerce`): when the detected column type is an
 integer type, every recorded value is an integer, is coerced without reaching `unreachable!()`, and
 the stored 64-bit pattern denotes the same number in the column's type — coercion is exact, hence
@@ -332,6 +517,23 @@ theorem C08_range_lookup (col : Column (BitVec 64)) (lo hi : BitVec 64) :
     have h2 := f64_to_u64_toNat hi
     have h3 := f64_to_u64_toNat v
     congr 1 <;> (apply decide_eq_decide.mpr; omega)
+
+/-- `Column::get_docids_for_value_range` through the column index, for every cardinality that fits the
+rows: the document range is turned into a row range (`docid_range_to_rowids`: identity / rank /
+start offsets of the ranks), the matching rows are collected, and `select_batch_in_place` maps them
+back (Optional: `select`; Multivalued: the cursor loop over the start offsets that writes each
+document once, then `select`). The result is exactly the documents of `s..e` that hold a value in
+the range, ascending, each once. -/
+theorem C08_column_range_lookup {V : Type} (key : V → Nat) (card : Card) (rows : Column V) (hfit : card.fits rows)
+    (lo hi s e : Nat) (hse : s ≤ e) (he : e ≤ rows.length) :
+    docidsForValueRange key (encodeAs card rows).1 (encodeAs card rows).2 lo hi s e
+      = (List.range' s (e - s)).filter (fun d => (rows.getD d []).any (fun v => decide (lo ≤ key v) && decide (key v ≤ hi))) :=
+  column_range_lookup key card rows hfit lo hi s e hse he
+
+example : docidsForValueRange id (encodeAs .multivalued [[5, 9], [], [1], [7, 8, 7]]).1
+    (encodeAs .multivalued [[5, 9], [], [1], [7, 8, 7]]).2 7 9 0 4 = [0, 3] := by decide
+example : docidsForValueRange id (encodeAs .optional [[5], [], [1], [7]]).1
+    (encodeAs .optional [[5], [], [1], [7]]).2 2 7 1 4 = [3] := by decide
 
 /-- the bitpacked reader transforms a query range to the stored (normalised) values. With the
 hypothesis `hHi : s.min ≤ hi` the transformation is exact; without it (`hi < min`) both bounds
@@ -428,6 +630,110 @@ example : read (mergeStacked [⟨2, some (encodeAs .full [[1], [2]])⟩,
     (mergeStacked [⟨2, some (encodeAs .full [[1], [2]])⟩,
       (⟨2, some (encodeAs .multivalued [[], [3, 4]])⟩ : MergeInput Nat)]).2
     = [[1], [2], [], [3, 4]] := by decide
+
+/-! ## merging the dictionaries of a Str / Bytes column: remapped term ordinals -/
+
+/-- `merge_dict_and_compute_term_ord_mapping` over the `TermMerger` k-way merge (`mergeDicts`), for any
+number of segment dictionaries (strictly increasing term lists; a segment without the column has the
+empty one) and any "a surviving row uses this ordinal" predicate: the merged dictionary is strictly
+increasing; every (segment, old ordinal) a surviving row uses is registered, and the new ordinal
+denotes in the merged dictionary exactly the term the old ordinal denoted in the segment's; hence
+new ordinals of any two registered terms compare like the terms themselves. -/
+theorem C08_dictionary_merge_remap (used : Nat → Nat → Bool) (ds : List (List Nat))
+    (hds : ∀ d ∈ ds, d.Pairwise (· < ·)) :
+    (mergeDicts used ds).merged.Pairwise (· < ·) ∧
+    (∀ s o, s < ds.length → o < (ds.getD s []).length → used s o = true →
+      ∃ n, remapOrd (mergeDicts used ds) s o = some n ∧
+        (mergeDicts used ds).merged[n]? = (ds.getD s [])[o]?) ∧
+    (∀ n n' a b : Nat, (mergeDicts used ds).merged[n]? = some a → (mergeDicts used ds).merged[n']? = some b →
+      (a < b ↔ n < n')) :=
+  ⟨(mergeDicts_spec used ds hds).1, fun s o hs ho hu => remapOrd_spec used ds hds s o hs ho hu,
+   fun n n' a b h1 h2 => sorted_idx_lt _ (mergeDicts_spec used ds hds).1 n n' a b h1 h2⟩
+
+/-- the merged dictionary holds exactly the terms some segment holds at a used ordinal: no term is
+emitted that no surviving row can reach (the code's "remove useless terms"), none that is used is
+dropped -/
+theorem C08_dictionary_merge_terms (used : Nat → Nat → Bool) (ds : List (List Nat))
+    (hds : ∀ d ∈ ds, d.Pairwise (· < ·)) (x : Nat) :
+    x ∈ (mergeDicts used ds).merged ↔
+      ∃ s o, s < ds.length ∧ (ds.getD s [])[o]? = some x ∧ used s o = true :=
+  mergeDicts_mem used ds hds x
+
+-- three segments (one without the column): term 3 is shared, so both old ordinals map to new ordinal 2
+example : (mergeDicts (fun _ _ => true) [[1, 3, 5], [2, 3], []]).merged = [1, 2, 3, 5] := by decide
+example : remapOrd (mergeDicts (fun _ _ => true) [[1, 3, 5], [2, 3], []]) 1 1 = some 2 := by decide
+example : remapOrd (mergeDicts (fun _ _ => true) [[1, 3, 5], [2, 3], []]) 0 1 = some 2 := by decide
+-- no surviving row uses ordinal 0 of segment 0: term 1 is dropped and the later ordinals shift
+example : (mergeDicts (fun s o => !(s == 0 && o == 0)) [[1, 3, 5], [2, 3], []]).merged = [2, 3, 5] := by decide
+example : remapOrd (mergeDicts (fun s o => !(s == 0 && o == 0)) [[1, 3, 5], [2, 3], []]) 0 2 = some 2 := by decide
+
+/-- the merged Str / Bytes column end to end (`merge_bytes_or_str_column`: merged dictionary, merged
+column index, ordinals remapped per segment while the rows are rearranged): for any row mapping
+(deleted rows absent, segments without the column), any cardinality that fits, if every ordinal of a
+surviving row lies inside its segment's dictionary and is marked used (the term bitsets of the alive
+rows; always the case when every term is kept), then resolving every merged row through the merged
+dictionary gives exactly the terms the old row resolved to in its own segment. -/
+theorem C08_dictionary_column_merge (card : Card) (used : Nat → Nat → Bool) (order : List (Nat × Nat))
+    (ins : List DictInput)
+    (hdict : ∀ d ∈ ins, d.dict.Pairwise (· < ·))
+    (hvalid : ∀ a ∈ order, validAddr (ins.map (·.ords)) a)
+    (hfit : card.fits (order.map (inputRow (ins.map (·.ords)))))
+    (hords : ∀ a ∈ order, ∀ o ∈ inputRow (ins.map (·.ords)) a, o < ((ins.map (·.dict)).getD a.1 []).length)
+    (hused : ∀ a ∈ order, ∀ o ∈ inputRow (ins.map (·.ords)) a, used a.1 o = true) :
+    readTerms (mergeDictColumnAs card used order ins).1 (mergeDictColumnAs card used order ins).2.1
+        (mergeDictColumnAs card used order ins).2.2
+      = mergeSpec order (ins.map DictInput.readTerms) :=
+  mergeDictColumn_spec card used order ins hdict hvalid hfit hords hused
+
+/-- the same with the kept terms decided as the code decides them (`compute_term_bitset` over the
+alive rows of every segment that has an alive bitset, `is_term_present`; `usedOf`): it suffices that
+every surviving row of a segment with a bitset is in that bitset — what `ShuffleMergeOrder` provides. -/
+theorem C08_dictionary_column_merge_alive (card : Card) (alive : List (Option (List Nat)))
+    (order : List (Nat × Nat)) (ins : List DictInput)
+    (hdict : ∀ d ∈ ins, d.dict.Pairwise (· < ·))
+    (hvalid : ∀ a ∈ order, validAddr (ins.map (·.ords)) a)
+    (hfit : card.fits (order.map (inputRow (ins.map (·.ords)))))
+    (hords : ∀ a ∈ order, ∀ o ∈ inputRow (ins.map (·.ords)) a, o < ((ins.map (·.dict)).getD a.1 []).length)
+    (halive : ∀ a ∈ order, ∀ rows, alive.getD a.1 none = some rows → a.2 ∈ rows) :
+    readTerms (mergeDictColumnAs card (usedOf alive ins) order ins).1
+        (mergeDictColumnAs card (usedOf alive ins) order ins).2.1
+        (mergeDictColumnAs card (usedOf alive ins) order ins).2.2
+      = mergeSpec order (ins.map DictInput.readTerms) :=
+  mergeDictColumn_alive card alive order ins hdict hvalid hfit hords halive
+
+/-- stacked merge of a Str / Bytes column (`MergeRowOrder::Stack`: every term kept, stacked column
+index, every ordinal of every segment remapped in turn): inputs canonical or missing, ordinals inside
+their dictionaries — the merged column resolves to the concatenation of what each segment resolved. -/
+theorem C08_dictionary_column_stack (ins : List DictInput)
+    (hdict : ∀ d ∈ ins, d.dict.Pairwise (· < ·))
+    (hcanon : ∀ d ∈ ins, CanonOrMissing d.ords)
+    (hords : ∀ d ∈ ins, ∀ r ∈ d.ords.read, ∀ o ∈ r, o < d.dict.length) :
+    readTerms (mergeDictColumnStacked ins).1 (mergeDictColumnStacked ins).2.1 (mergeDictColumnStacked ins).2.2
+      = stackSpec (ins.map DictInput.readTerms) :=
+  mergeDictColumnStacked_spec ins hdict hcanon hords
+
+example : (fun m : List Nat × Index × List Nat => (m.1, read m.2.1 m.2.2))
+      (mergeDictColumnStacked [⟨[1, 3, 5], ⟨2, some (encodeAs .multivalued [[0, 2], [1]])⟩⟩, ⟨[], ⟨1, none⟩⟩,
+        ⟨[2, 3], ⟨1, some (encodeAs .full [[1]])⟩⟩])
+    = ([1, 2, 3, 5], [[0, 3], [2], [], [2]]) := by decide
+
+-- alive rows {0} of segment 0 (bitset), no bitset for segment 1: term 3 of segment 0 is unused there
+-- but kept through segment 1, term 2 of segment 1 is kept because that segment has no bitset
+example :
+    (mergeDictColumnAs .multivalued
+      (usedOf [some [0], none] [⟨[1, 3, 5], ⟨2, some (encodeAs .multivalued [[0, 2], [1]])⟩⟩,
+        ⟨[2, 3], ⟨1, some (encodeAs .full [[1]])⟩⟩]) [(1, 0), (0, 0)]
+      [⟨[1, 3, 5], ⟨2, some (encodeAs .multivalued [[0, 2], [1]])⟩⟩, ⟨[2, 3], ⟨1, some (encodeAs .full [[1]])⟩⟩]).1
+    = [1, 2, 3, 5] := by decide
+
+-- segment 0: dictionary [1,3,5], rows [1,5] and [3]; segment 1: dictionary [2,3], row [3]; row 1 of
+-- segment 0 is deleted and term 2 is used by no row: merged dictionary [1,3,5], rows [3] and [1,5]
+example :
+    mergeDictColumnAs .multivalued (fun s o => (s == 0 && (o == 0 || o == 2)) || (s == 1 && o == 1)) [(1, 0), (0, 0)]
+      [⟨[1, 3, 5], ⟨2, some (encodeAs .multivalued [[0, 2], [1]])⟩⟩, ⟨[2, 3], ⟨1, some (encodeAs .full [[1]])⟩⟩]
+    = ([1, 3, 5], .multivalued [0, 1] 2 [0, 1, 3], [1, 0, 2]) := by decide
+example :
+    readTerms [1, 3, 5] (.multivalued [0, 1] 2 [0, 1, 3]) [1, 0, 2] = [[some 3], [some 1, some 5]] := by decide
 
 /-! ## monotone mappings (functions extracted from common/src/lib.rs) -/
 
